@@ -218,6 +218,8 @@ def relations(ctx, k, A, B, C, rng, maxexp, feats):
             okacc = okacc and float(A.orientation) == a[2]
         if k == "se3":
             okacc = okacc and list(map(float, A.orientation)) == a[3:]
+        if k in ("r2", "r3"):
+            okacc = okacc and float(A.orientation) == 0.0  # a point has no orientation: documented as 0.0
         ctx.check("accessors-consistent", okacc, feats, None, case)
     nontriv = ta > 0 and tb > 0
     if k == "se2":
